@@ -4,7 +4,7 @@ effective soft limit that was unresolved and not signalled before; timeout
 callback told soft=True and the limit; precedence job over pool.  Lane REAL
 (vmon.real_c06): tasks count the SoftTimeLimitExceeded they see; close() while
 a soft-limited job runs; a job finishing in time whose slow result callback is
-still running when the limit's instant passes."""
+still running when the limit's instant passes.  A pool initializer with signal handling of its own (SIG_DFL / SIG_IGN / faulthandler on the soft-limit signal) does not keep the limit from being raised."""
 from vmon import simcheck
 
 PROPERTY = 'C06'
